@@ -53,7 +53,16 @@ def units(tier, seed):
         for mx in (False, True):
             descs.append(dict(engines=list(eng), gens=1 + k % 2, maximize=mx, obj=objs[k % 3], Mh=5, seed=s + k, drive="run", unattended=True, kelites=(1, 0)[k % 2],
                               gsc=({"kind": "metaepoch", "n": 5}, {"kind": "evals", "n": 150})[k % 2], sprout={"kind": ("simple", "nbc")[k % 2], "L": 2}, box=("B_asym", "B_sym")[k % 2]))
+    # the direction flag given as numpy.bool_ (the result of a numpy comparison) or as 0 / 1
+    for k, d in enumerate(descs):
+        if k % 3 == 2:
+            d["maximize_type"] = ("npbool", "int")[(k // 3) % 2]
     us = [{"kind": "run", "descs": c} for c in chunks(descs, 12)]
+    # a second memoising problem (use_cache=True) with ANOTHER objective in the same process, same seed and box: the first
+    # one's values must not be served to it
+    for k, eng in enumerate([("SEA", "DE"), ("LHS", "SEA"), ("DE",), ("SHADE", "SOB"), ("GA", "CMAf"), ("SOB",)]):
+        first = dict(engines=list(eng), gens=1, obj="twofunnel", Mh=3, seed=s + k, sprout={"kind": "simple", "L": 2}, use_cache=True, choices="", box="B_asym", maximize=bool(k % 2))
+        us.append({"kind": "run", "descs": [dict(first, obj="sphere_in", gens=2, Mh=4, prelude=[first], unattended=bool(k % 2), drive=("steps", "run")[k % 2])]})
     nmax = 120 if tier == "quick" else 300
     for box in ("B_asym", "B_dec"):
         us.append({"kind": "budgets", "box": box, "nmax": nmax, "seed": s})
